@@ -66,10 +66,13 @@ def operations(endp):
             ops.append((f"{attr} = <{k}>", "set", attr, ("dt", k), endp))
         ops.append((f"{attr} = None", "set", attr, ("none",), endp))
         ops.append((f"{attr} = 5", "set", attr, ("bad",), endp))
+        # the repair idiom `todo.end = todo.DUE`: the value already stored is assigned again
+        ops.append((f"{attr} = <the stored {endp} value>", "set", attr, ("same",), endp))
     ops.append(("DURATION = <days>", "set", "DURATION", ("td", False), "DURATION"))
     ops.append(("DURATION = <secs>", "set", "DURATION", ("td", True), "DURATION"))
     ops.append(("DURATION = <days+time>", "set", "DURATION", ("td", "daystime"), "DURATION"))
     ops.append(("DURATION = None", "set", "DURATION", ("none",), "DURATION"))
+    ops.append(("DURATION = <the stored DURATION value>", "set", "DURATION", ("same",), "DURATION"))
     ops.append(("DURATION = 5", "set", "DURATION", ("bad",), "DURATION"))
     for attr, key in (("DTSTART", "DTSTART"), (endp, endp), ("DURATION", "DURATION")):
         ops.append((f"del {attr}", "del", attr, None, key))
@@ -91,7 +94,12 @@ def arg_value(spec):
 def apply_op(it, comp, op):
     name, how, attr, spec, key = op
     try:
-        if how == "set":
+        if how == "set" and spec[0] == "same":
+            v = comp.items.get(key)
+            if not isinstance(v, Obj):
+                return "SKIP"
+            it.setattr(comp, attr, v.attrs.get("dt", v.attrs.get("td")))
+        elif how == "set":
             it.setattr(comp, attr, arg_value(spec))
         else:
             it.delattr(comp, attr)
@@ -148,6 +156,8 @@ def run(ctx):
                     exc = apply_op(it, comp, op)
                 except Unsupported as e:
                     raise AnalysisError(f"{cq}: `{op[0]}` leaves the abstract interface: {e}")
+                if exc == "SKIP":       # nothing stored to assign again
+                    continue
                 after = state_of(it, comp, endp)
                 ntrans += 1
                 succ.setdefault(st, set()).add(after)
@@ -182,7 +192,7 @@ def run(ctx):
                     if how == "del" or spec[0] == "none":
                         exp[idx] = "absent"
                     else:
-                        exp[idx] = spec[1] if spec[0] == "dt" else (
+                        exp[idx] = before[idx] if spec[0] == "same" else spec[1] if spec[0] == "dt" else (
                             "daystime" if spec[1] == "daystime" else "secs" if spec[1] else "days")
                         if idx == 1:
                             exp[2] = "absent"
